@@ -1,6 +1,6 @@
 CONSTANTS
   NModels = 12
-  NOperators = 56
+  NOperators = 57
   MaxSite = 25
 INIT Init
 NEXT Next
